@@ -19,6 +19,7 @@ import Golib.Proof.C05Search
 import Golib.Proof.C05Aligned
 import Golib.Proof.C05Facts
 import Golib.Proof.C05Rebuild
+import Golib.Proof.C05Driver
 
 namespace Golib.C05
 open Golib
@@ -317,6 +318,36 @@ example : ((Trie.ofPatterns [[97, 98, 99, 100], [120, 98, 99, 121]]).bind fun t1
       (fun t2 => (t2.findAll [97, 98, 99, 100]).map fun ws => (ws, t2.failOf [97, 98, 99]))
     = some ([[98, 99], [99], [97, 98, 99, 100]], some [98, 99]) := by
   decide +kernel
+
+/-- Histories of CALLS (wave 4), about the protocol driver that the real code is compared
+with line by line (`runOpsWith` / `stepWith`, shared by C05 and C06; `q` = the query
+function of the property):
+* result stability — the answers already given do not depend on the calls that follow
+  (the model is a function of the current state; the harness keeps a ledger of every string
+  the real code returned and re-compares all of them after every later call);
+* a call that is not `insert` / `build`, whatever it answers — also a query that panics
+  because patterns were inserted since the last `BuildFailureLinks` — leaves the trie and
+  the dirty flag untouched, so the `build` that follows starts from exactly the trie the
+  inserts produced and yields a `Built` trie (`c05_rebuild_eq_build`): after a recovered
+  panic the trie behaves as freshly built;
+* such a panic kills the case exactly when the trie is not dirty (a panic inside the
+  property is never stepped over). -/
+theorem c05_call_history :
+    (∀ (q : Query) (a b : List String) (s : Option DState),
+      (runOpsWith q s (a ++ b)).take a.length = runOpsWith q s a) ∧
+    (∀ (q : Query) (s s' : DState) (ts : List String), mutOp s ts = none →
+      (stepWith q s ts).2 = some s' → s'.t = s.t ∧ s'.dirty = s.dirty) ∧
+    (∀ (q : Query) (s : DState) (ts : List String), mutOp s ts = none → q s ts = some none →
+      stepWith q s ts = ("panic", if s.dirty then some s else none)) :=
+  ⟨answers_prefix_stable, query_keeps_trie, query_panic⟩
+
+/-- `ab` inserted, not built: `FindAll("ab")` meets a nil failure link and panics; the panic is
+recovered, `BuildFailureLinks` follows, and the same query answers as on a fresh trie. -/
+example : (([[97, 98]] : List (List Nat)).foldl (fun t p => t.insert (decodeAll p)) Trie.empty).findAll [97, 98]
+      = none ∧
+    ((([[97, 98]] : List (List Nat)).foldl (fun t p => t.insert (decodeAll p)) Trie.empty).rebuild.bind
+      fun t' => t'.findAll [97, 98]) = some [[97, 98]] := by
+  constructor <;> decide +kernel
 
 /-- The source expressions and statements of `algz/trie.go` the model is written against
 (re-extracted by go/ast on every run into `Golib/Gen/FactsC05.lean`) are the ones the model
